@@ -523,6 +523,21 @@ func Check(c *core.Ctx, id string) {
 		okR = append(okR, &Run{})
 		okS = append(okS, &Result{Events: strings.Split(strings.TrimRight(string(rec.Bytes()), "\n"), "\n"), Notes: notes})
 	}
+	// Observations that are exactly a recorded finding (a multipart file part that is not valid
+	// UTF-8 changes in the JSON round trip) are reported here and put right before validation:
+	// in a long run there are hundreds of them, and each would cost a validation round.
+	const mpWhy = "the value of a multipart file part that is not valid UTF-8"
+	for i, r := range okS {
+		for k, ev := range r.Events {
+			if strings.Contains(ev, `"ev":"har"`) && strings.Contains(ev, `"jsonOK":false`) && strings.Contains(ev, `"jsonWhy":"`+mpWhy) &&
+				field(ev, "postOK") == "true" && field(ev, "contentOK") == "true" && field(ev, "fieldsOK") == "true" {
+				if id == "C16" {
+					c.Violation("HAR entry does not survive the JSON round trip: "+mpWhy, fmt.Sprintf("run %s; observation %s", describeRun(okR[i]), ev), nil)
+				}
+				r.Events[k] = strings.Replace(strings.Replace(ev, `"jsonOK":false`, `"jsonOK":true`, 1), `"jsonWhy":"`+mpWhy, `"jsonWhy":"`, 1)
+			}
+		}
+	}
 	seenSig := map[string]bool{}
 	for _, r := range validate(c, okR, okS, "log") {
 		if r.class() != id {
